@@ -1,6 +1,7 @@
 import Driver.KeyOps
 import Driver.SerOps
 import Driver.DagOps
+import Driver.RangeOps
 /-
   Line-protocol driver: one operation per input line, one canonical result line per operation.
   Imports Model only (core Lean), so it links as a `lean_exe`.
@@ -19,6 +20,9 @@ def step (st : St) (line : String) : St × String :=
   | some r => (st, r)
   | none =>
   match dagOps w with
+  | some r => (st, r)
+  | none =>
+  match rangeOps w with
   | some r => (st, r)
   | none => (st, "bad-op")
 
